@@ -74,16 +74,19 @@ variable (s : St)
 @[simp] theorem state_removeWaiter (tid : Nat) : (removeWaiter s tid).state = s.state := rfl
 @[simp] theorem log_removeWaiter (tid : Nat) : (removeWaiter s tid).log = s.log := rfl
 @[simp] theorem tasks_removeWaiter (tid : Nat) : (removeWaiter s tid).tasks = s.tasks := rfl
-@[simp] theorem stopped_handleFailure (k : ErrK) : (handleFailure s k).stopped = s.stopped := rfl
-@[simp] theorem timer_handleFailure (k : ErrK) : (handleFailure s k).timer = s.timer := rfl
-@[simp] theorem zcListening_handleFailure (k : ErrK) : (handleFailure s k).zcListening = s.zcListening := rfl
 @[simp] theorem locked_release : (release s).locked = false := by unfold release wakeUpFirst; dsimp only; split <;> rfl
 end proj
 
 def noisy : Act → Bool | .attempt | .zcAdd | .arm _ => true | _ => false
 def nlog (s : St) : List Act := s.log.filter noisy
 
-def NoInflight (s : St) : Prop := ∀ (i : Nat) (t : Task), s.tasks[i]? = some t → inflightPc t.pc = false
+/-- the connect task is busy with an attempt: in a client call, or in `on_connect` / `on_connect_error` -/
+def attemptPc : Pc → Bool | .inStart | .inFinish | .inOnConnect | .inOnError _ => true | _ => false
+
+theorem attempt_inflight (pc : Pc) (h : attemptPc pc = true) : inflightPc pc = true := by
+  cases pc <;> simp_all [attemptPc, inflightPc]
+
+def NoInflight (s : St) : Prop := ∀ (i : Nat) (t : Task), s.tasks[i]? = some t → attemptPc t.pc = false
 def NoPendingStart (s : St) : Prop := ∀ (i : Nat) (t : Task), s.tasks[i]? = some t → t.kind = .startCall → t.pc = .done
 def AccOk (s : St) : Prop := s.accept = true → s.state = .disconnected ∨ s.state = .connecting
 
@@ -144,7 +147,7 @@ theorem Step2.ofEq {s s' : St} (ht : s'.tasks = s.tasks) (c : SameCtl s s') : St
 
 /-! ## task-list updates -/
 
-theorem noInflight_setTask (s : St) (tid : Nat) (f : Task → Task) (hf : ∀ t, inflightPc t.pc = false → inflightPc (f t).pc = false)
+theorem noInflight_setTask (s : St) (tid : Nat) (f : Task → Task) (hf : ∀ t, attemptPc t.pc = false → attemptPc (f t).pc = false)
     (h : NoInflight s) : NoInflight (setTask s tid f) := by
   intro i t hi
   simp only [setTask] at hi
@@ -176,7 +179,7 @@ theorem nps_setTask (s : St) (tid : Nat) (f : Task → Task) (hk : ∀ t, (f t).
     · rw [← hi] at hkind ⊢; exact h i t0 h0 hkind
 
 theorem step2_setTask (s : St) (tid : Nat) (f : Task → Task) (hk : ∀ t, (f t).kind = t.kind)
-    (hf : ∀ t, inflightPc t.pc = false → inflightPc (f t).pc = false)
+    (hf : ∀ t, attemptPc t.pc = false → attemptPc (f t).pc = false)
     (hd : ∀ t, s.tasks[tid]? = some t → t.kind = .startCall → t.pc = .done → (f t).pc = .done) : Step2 s (setTask s tid f) := by
   refine ⟨rfl, fun _ ⟨n, t, z⟩ => ⟨⟨noInflight_setTask s tid f hf n, t, z⟩, rfl⟩, ?_, id⟩
   intro _ hn
@@ -244,10 +247,6 @@ theorem nlog_stopZc (s : St) : nlog (stopZc s) = nlog s := by
 theorem step2_cancelConnect (s : St) : Step2 s (cancelConnect s) :=
   (step2_cancelTimer s).trans (step2_cancelConnectTask _)
 
-theorem step2_handleFailure (s : St) (k : ErrK) : Step2 s (handleFailure s k) := by
-  have h1 := (step2_setState s .disconnected).trans (step2_emit _ (.onConnectError k) rfl)
-  exact h1.trans (Step2.ofEq rfl ⟨rfl, rfl, rfl, rfl, rfl, rfl⟩)
-
 /-! ## the lock primitives -/
 
 theorem step2_wakeUpFirst (s : St) : Step2 s (wakeUpFirst s) := by
@@ -286,6 +285,21 @@ theorem step2_afterFail (s : St) (tid : Nat) (h : s.stopped = false) : Step2 s (
   obtain ⟨a, b, c⟩ := afterFail_ctl s tid
   exact Step2.running h a (fun ha => by unfold AccOk; rw [b, c]; exact ha)
 
+theorem step2_failEnd (s : St) (k : ErrK) (tid : Nat) (h : s.stopped = false) : Step2 s (failEnd s k tid) := by
+  unfold failEnd
+  have e1 : Step2 s (emit { s with tries := if k = .auth then maxTries else s.tries + 1 } (.failCounted k)) :=
+    (Step2.ofEq (s := s) (s' := { s with tries := if k = .auth then maxTries else s.tries + 1 }) rfl ⟨rfl, rfl, rfl, rfl, rfl, rfl⟩).trans
+      (step2_emit _ (.failCounted k) rfl)
+  exact e1.trans (step2_afterFail _ tid (by rw [e1.stopped]; exact h))
+
+theorem step2_failBegin (s : St) (k : ErrK) (tid : Nat) (h : s.stopped = false) : Step2 s (failBegin s k tid) := by
+  unfold failBegin
+  dsimp only
+  have e1 : Step2 s (emit (setState s .disconnected) (.onConnectError k)) := (step2_setState s _).trans (step2_emit _ _ rfl)
+  split
+  · refine e1.trans (Step2.running (by rw [e1.stopped]; exact h) rfl (fun ha => ha))
+  · exact e1.trans (step2_failEnd _ k tid (by rw [e1.stopped]; exact h))
+
 theorem step2_connectLocked (s : St) (tid : Nat) : Step2 s (connectLocked s tid) := by
   unfold connectLocked
   split
@@ -299,8 +313,7 @@ theorem step2_connectLocked (s : St) (tid : Nat) : Step2 s (connectLocked s tid)
     have h1 : Step2 s (emit (setState s .connecting) .attempt) :=
       Step2.running hs rfl (fun _ => by intro _; right; rfl)
     split
-    · refine h1.trans ((step2_handleFailure _ .other).trans (step2_afterFail _ tid ?_))
-      simpa using hs
+    · exact h1.trans (step2_failBegin _ .other tid (by simpa using hs))
     · refine h1.trans ((Step2.ofEq rfl ⟨rfl, rfl, rfl, rfl, rfl, rfl⟩).trans (Step2.running ?_ rfl ?_))
       · simpa using hs
       · intro ha; exact ha
@@ -358,15 +371,24 @@ theorem step2_scheduleConnect (s : St) (d : Nat) (h : d = 0 ∨ s.stopped = fals
     · exact absurd h hd
     · exact Step2.running h rfl id
 
-theorem step2_discLocked (s : St) (tid : Nat) (e : Bool) : Step2 s (discLocked s tid e) := by
-  unfold discLocked
+theorem step2_discEnd (s : St) (tid : Nat) (e : Bool) : Step2 s (discEnd s tid e) := by
+  unfold discEnd
   dsimp only
-  have h1 : Step2 s (finish (release (emit (setState s .disconnected) (.onDisconnect e))) tid) :=
-    (((step2_setState s _).trans (step2_emit _ _ rfl)).trans (step2_release _)).trans (step2_finish _ _)
+  have h1 : Step2 s (finish (release s) tid) := (step2_release s).trans (step2_finish _ _)
   split
   · exact h1
   · rename_i hs
     exact h1.trans (step2_scheduleConnect _ _ (Or.inr (by simpa using hs)))
+
+theorem step2_discLocked (s : St) (tid : Nat) (e : Bool) (hk : ∀ t, s.tasks[tid]? = some t → t.kind ≠ .startCall) :
+    Step2 s (discLocked s tid e) := by
+  unfold discLocked
+  dsimp only
+  have h1 : Step2 s (emit (setState s .disconnected) (.onDisconnect e)) := (step2_setState s _).trans (step2_emit _ _ rfl)
+  split
+  · refine h1.trans (step2_setTask _ tid _ (fun _ => rfl) (fun _ _ => rfl) ?_)
+    intro t ht hkk _; exact absurd hkk (hk t (by simpa using ht))
+  · exact h1.trans (step2_discEnd _ _ _)
 
 /-- `start()` with the lock held: the manager is running afterwards -/
 theorem startLocked_facts (s : St) (tid : Nat) :
@@ -389,9 +411,9 @@ theorem startLocked_facts (s : St) (tid : Nat) :
 
 theorem noInflight_of_unlocked (s : St) (h : LockInv s) (hl : s.locked = false) : NoInflight s := by
   intro i t ht
-  cases hp : inflightPc t.pc
+  cases hp : attemptPc t.pc
   · rfl
-  · have := h.a i t ht hp; simp [hl] at this
+  · have := h.a i t ht (attempt_inflight _ hp); simp [hl] at this
 
 theorem stopLocked_eq (s : St) (tid : Nat) : stopLocked s tid =
     emit (finish (release (setState (stopZc (cancelConnectTask (cancelTimer { s with stopped := true }))) .disconnected)) tid) .stopRet := rfl
@@ -468,13 +490,14 @@ theorem step2w_acquire (s : St) (tid : Nat) : Step2w s (acquire s tid).1 := by
   · refine ⟨rfl, fun _ ⟨n, t, z⟩ => ⟨⟨?_, t, z⟩, rfl⟩, id⟩
     exact noInflight_setTask _ tid _ (fun _ _ => rfl) n
 
-theorem lockedBody_G (s : St) (tid : Nat) (k : Kind) (h : HeldBy s tid) (hs : StopInv s) (ha : AccOk s) :
-    StopInv (lockedBody s tid k) ∧ AccOk (lockedBody s tid k) := by
+theorem lockedBody_G (s : St) (tid : Nat) (k : Kind) (hkind : ∀ t, s.tasks[tid]? = some t → t.kind = k) (h : HeldBy s tid)
+    (hs : StopInv s) (ha : AccOk s) : StopInv (lockedBody s tid k) ∧ AccOk (lockedBody s tid k) := by
   unfold lockedBody
   split
   · have := (step2_connectLocked s tid).w; exact ⟨this.stopInv hs, this.acc ha⟩
   · rename_i e
-    have := (step2_discLocked s tid e).w; exact ⟨this.stopInv hs, this.acc ha⟩
+    have := (step2_discLocked s tid e (fun t ht => by rw [hkind t ht]; intro hc; cases hc)).w
+    exact ⟨this.stopInv hs, this.acc ha⟩
   · obtain ⟨h1, h2⟩ := startLocked_facts s tid
     exact ⟨fun h' => by rw [h1] at h'; exact Bool.noConfusion h', h2 ha⟩
   · obtain ⟨_, h2, _, _, h5⟩ := stopLocked_facts s tid h
@@ -495,10 +518,15 @@ theorem spawn_G (s : St) (k : Kind) (h : G s) : G (spawn s k) := by
     exact ⟨w2.stopInv h.stop, w2.acc h.acc⟩
   · have hh := acquire_got s1 _ h1 hlen hg
     rw [show acquire s1 s.tasks.length = ((acquire s1 s.tasks.length).1, true) from by rw [← hg]]
-    exact lockedBody_G _ _ _ hh (w2.stopInv h.stop) (w2.acc h.acc)
+    refine lockedBody_G _ _ _ ?_ hh (w2.stopInv h.stop) (w2.acc h.acc)
+    intro t ht
+    obtain ⟨t0, h0, hk0⟩ := kind_acquire s1 _ _ t ht
+    rw [← hk0]
+    have : s1.tasks[s.tasks.length]? = some { kind := k, pc := .running } := by rw [← hs1]; simp
+    rw [this] at h0; cases h0; rfl
 
 theorem not_stopped_of_inflight (s : St) (tid : Nat) (t : Task) (hs : StopInv s) (ht : s.tasks[tid]? = some t)
-    (hp : inflightPc t.pc = true) : s.stopped = false := by
+    (hp : attemptPc t.pc = true) : s.stopped = false := by
   cases h : s.stopped
   · rfl
   · have := (hs h).n tid t ht; simp [hp] at this
@@ -515,10 +543,9 @@ theorem Step2w.pair {s s' : St} (w : Step2w s s') (hs : StopInv s) (ha : AccOk s
   ⟨w.stopInv hs, w.acc ha⟩
 
 theorem failPath (s : St) (tid : Nat) (k : ErrK) (h0 : s.stopped = false) :
-    Step2w s (afterFail (handleFailure { s with cli := .idle } k) tid) := by
+    Step2w s (failBegin { s with cli := .idle } k tid) := by
   have e1 : Step2 s { s with cli := .idle } := Step2.ofEq rfl ⟨rfl, rfl, rfl, rfl, rfl, rfl⟩
-  have e2 := e1.trans (step2_handleFailure _ k)
-  exact (e2.trans (step2_afterFail _ tid (by rw [e2.stopped]; exact h0))).w
+  exact (e1.trans (step2_failBegin _ k tid (by rw [e1.stopped]; exact h0))).w
 
 theorem wakeTask_G (s : St) (tid : Nat) (t : Task) (h : G s) (ht : s.tasks[tid]? = some t) : G (wakeTask s tid t) := by
   suffices h2 : StopInv (wakeTask s tid t) ∧ AccOk (wakeTask s tid t) from ⟨wakeTask_inv s tid t h.lock ht, h2.1, h2.2⟩
@@ -545,11 +572,15 @@ theorem wakeTask_G (s : St) (tid : Nat) (t : Task) (h : G s) (ht : s.tasks[tid]?
             (setTask { removeWaiter s tid with locked := true } tid fun t => { t with pc := .running }) :=
           ⟨rfl, fun _ ⟨n, t, z⟩ => ⟨⟨noInflight_setTask _ tid _ (fun _ _ => rfl) n, t, z⟩, rfl⟩, id⟩
         have w3 := w1.trans w2
-        exact lockedBody_G _ _ _ hh (w3.stopInv hs) (w3.acc ha)
+        refine lockedBody_G _ _ _ ?_ hh (w3.stopInv hs) (w3.acc ha)
+        intro t' ht'
+        obtain ⟨t0, h0, rfl⟩ := getElem?_setTask ht'
+        have h0' : s.tasks[tid]? = some t0 := h0
+        rw [ht] at h0'; cases h0'; simp
       · exact ⟨hs, ha⟩
   · -- inStart
     rename_i hpc
-    have h0 := not_stopped_of_inflight s tid t hs ht (by simp [hpc, inflightPc])
+    have h0 := not_stopped_of_inflight s tid t hs ht (by simp [hpc, attemptPc])
     split
     · exact (failPath s tid .other h0).pair hs ha
     · split
@@ -560,15 +591,38 @@ theorem wakeTask_G (s : St) (tid : Nat) (t : Task) (h : G s) (ht : s.tasks[tid]?
       · exact ⟨hs, ha⟩
   · -- inFinish
     rename_i hpc
-    have h0 := not_stopped_of_inflight s tid t hs ht (by simp [hpc, inflightPc])
+    have h0 := not_stopped_of_inflight s tid t hs ht (by simp [hpc, attemptPc])
     split
     · exact (failPath s tid .other h0).pair hs ha
     · split
-      · apply running_pair
-        · simpa using h0
-        · intro hacc; simp [setState] at hacc
+      · dsimp only
+        split
+        · apply running_pair
+          · simpa [setTask] using h0
+          · intro hacc; simp [setTask, setState] at hacc
+        · apply running_pair
+          · simpa using h0
+          · intro hacc; simp [setState] at hacc
       · exact (failPath s tid _ h0).pair hs ha
       · exact ⟨hs, ha⟩
+  · -- inOnConnect
+    split
+    · exact ((step2_release s).trans (step2_finish _ tid)).w.pair hs ha
+    · exact ⟨hs, ha⟩
+  · -- inOnError
+    rename_i k hpc
+    have h0 := not_stopped_of_inflight s tid t hs ht (by simp [hpc, attemptPc])
+    split
+    · exact ((step2_release s).trans (step2_finish _ tid)).w.pair hs ha
+    · split
+      · exact (step2_failEnd s k tid h0).w.pair hs ha
+      · exact ⟨hs, ha⟩
+  · -- inOnDisc
+    split
+    · split
+      · exact (step2_discEnd s tid _).w.pair hs ha
+      · exact ⟨hs, ha⟩
+    · exact ⟨hs, ha⟩
 
 theorem complete_G (s : St) (pc : Pc) (r : Res) (h : G s) : G (complete s pc r) := by
   refine ⟨complete_inv s pc r h.lock, ?_, ?_⟩
@@ -592,6 +646,16 @@ theorem step_G (s : St) (e : Ev) (h : G s) : G (step s e) := by
     · exact h
   | startDone r => exact complete_G s _ r h
   | finishDone r => exact complete_G s _ r h
+  | cbDone =>
+    refine G.mk' (step_inv s .cbDone h.lock) ?_
+    simp only [step]
+    unfold completeCb
+    split
+    · rename_i tid _
+      have w : Step2w s { setTask s tid (fun t => { t with result := some .ok }) with ready := s.ready ++ [.wake tid] } :=
+        ⟨rfl, fun _ ⟨n, t, z⟩ => ⟨⟨noInflight_setTask _ tid _ (fun _ h => h) n, t, z⟩, rfl⟩, id⟩
+      exact w.pair h.stop h.acc
+    · exact ⟨h.stop, h.acc⟩
   | sessionEnd e =>
     simp only [step]
     split
@@ -646,8 +710,8 @@ theorem step_G (s : St) (e : Ev) (h : G s) : G (step s e) := by
         exact wakeTask_G _ tid t (G.mk' (h.lock.congr rfl rfl rfl) (w.pair h.stop h.acc)) ht
       · exact G.mk' (h.lock.congr rfl rfl rfl) (w.pair h.stop h.acc)
 
-theorem init_G (b : Bool) : G (init b) := by
-  refine ⟨init_inv b, fun _ => ⟨?_, rfl, rfl⟩, fun _ => Or.inl rfl⟩
+theorem init_G (b : Bool) (c e d : Bool := false) : G (init b c e d) := by
+  refine ⟨init_inv b c e d, fun _ => ⟨?_, rfl, rfl⟩, fun _ => Or.inl rfl⟩
   intro i t hi; simp [init] at hi
 
 theorem run_G (s : St) (evs : List Ev) (h : G s) : G (run s evs) := by
@@ -666,12 +730,12 @@ theorem Step2.F {s s' : St} (h : Step2 s s') (f : F s) : F s' ∧ nlog s' = nlog
   obtain ⟨q, l⟩ := h.quiet f.stopped f.quiet
   exact ⟨⟨by rw [h.stopped]; exact f.stopped, q, h.nps f.stopped f.nps⟩, l⟩
 
-theorem lockedBody_F (s : St) (tid : Nat) (k : Kind) (hk : k ≠ .startCall) (h : HeldBy s tid) (f : F s) :
-    F (lockedBody s tid k) ∧ nlog (lockedBody s tid k) = nlog s := by
+theorem lockedBody_F (s : St) (tid : Nat) (k : Kind) (hk : k ≠ .startCall) (hkind : ∀ t, s.tasks[tid]? = some t → t.kind = k)
+    (h : HeldBy s tid) (f : F s) : F (lockedBody s tid k) ∧ nlog (lockedBody s tid k) = nlog s := by
   unfold lockedBody
   split
   · exact (step2_connectLocked s tid).F f
-  · rename_i e; exact (step2_discLocked s tid e).F f
+  · rename_i e; exact (step2_discLocked s tid e (fun t ht => by rw [hkind t ht]; intro hc; cases hc)).F f
   · exact absurd rfl hk
   · obtain ⟨h1, h2, h3, h4, _⟩ := stopLocked_facts s tid h
     exact ⟨⟨h1, h2, h4 f.nps⟩, h3⟩
@@ -696,7 +760,13 @@ theorem spawn_F (s : St) (k : Kind) (hk : k ≠ .startCall) (hl : LockInv s) (f 
     rw [show acquire s1 s.tasks.length = ((acquire s1 s.tasks.length).1, true) from by rw [← hg]]
     simp only [↓reduceIte]
     obtain ⟨f2, l2⟩ := w2.F f
-    obtain ⟨f3, l3⟩ := lockedBody_F _ _ k hk hh f2
+    have hkind : ∀ t, (acquire s1 s.tasks.length).1.tasks[s.tasks.length]? = some t → t.kind = k := by
+      intro t ht
+      obtain ⟨t0, h0, hk0⟩ := kind_acquire s1 _ _ t ht
+      rw [← hk0]
+      have : s1.tasks[s.tasks.length]? = some { kind := k, pc := .running } := by rw [← hs1]; simp
+      rw [this] at h0; cases h0; rfl
+    obtain ⟨f3, l3⟩ := lockedBody_F _ _ k hk hkind hh f2
     exact ⟨f3, by rw [l3, l2]⟩
 
 theorem wakeTask_F (s : St) (tid : Nat) (t : Task) (hl : LockInv s) (f : F s) (ht : s.tasks[tid]? = some t) :
@@ -729,13 +799,29 @@ theorem wakeTask_F (s : St) (tid : Nat) (t : Task) (hl : LockInv s) (f : F s) (h
             rw [ht] at this; exact (Option.some.inj this).symm
           rw [this] at hk'; exact absurd hk' hk
         obtain ⟨f2, l2⟩ := (w1.trans w2).F f
-        obtain ⟨f3, l3⟩ := lockedBody_F _ _ t.kind hk hh f2
+        have hkind : ∀ t', (setTask { removeWaiter s tid with locked := true } tid fun t => { t with pc := .running }).tasks[tid]? = some t' →
+            t'.kind = t.kind := by
+          intro t' ht'
+          obtain ⟨t0, h0, rfl⟩ := getElem?_setTask ht'
+          have h0' : s.tasks[tid]? = some t0 := h0
+          rw [ht] at h0'; cases h0'; simp
+        obtain ⟨f3, l3⟩ := lockedBody_F _ _ t.kind hk hkind hh f2
         exact ⟨f3, by rw [l3, l2]⟩
       · exact ⟨f, rfl⟩
   · rename_i hpc
-    have := f.quiet.n tid t ht; simp [hpc, inflightPc] at this
+    have := f.quiet.n tid t ht; simp [hpc, attemptPc] at this
   · rename_i hpc
-    have := f.quiet.n tid t ht; simp [hpc, inflightPc] at this
+    have := f.quiet.n tid t ht; simp [hpc, attemptPc] at this
+  · rename_i hpc
+    have := f.quiet.n tid t ht; simp [hpc, attemptPc] at this
+  · rename_i k hpc
+    have := f.quiet.n tid t ht; simp [hpc, attemptPc] at this
+  · -- inOnDisc: the report of a session that ended after stop(): nothing is scheduled
+    split
+    · split
+      · exact (step2_discEnd s tid _).F f
+      · exact ⟨f, rfl⟩
+    · exact ⟨f, rfl⟩
 
 theorem step_F (s : St) (e : Ev) (he : e ≠ .callStart) (hl : LockInv s) (f : F s) :
     F (step s e) ∧ nlog (step s e) = nlog s := by
@@ -754,6 +840,16 @@ theorem step_F (s : St) (e : Ev) (he : e ≠ .callStart) (hl : LockInv s) (f : F
     obtain ⟨f2, l2⟩ := hc.F f
     obtain ⟨f3, l3⟩ := spawn_F _ .stopCall (by decide) hl2 f2
     exact ⟨f3, by rw [l3, l2]⟩
+  | cbDone =>
+    simp only [step]
+    unfold completeCb
+    split
+    · rename_i tid _
+      have w1 := step2_setTask s tid (fun t => { t with result := some .ok }) (fun _ => rfl) (fun _ h => h) (fun _ _ _ h => h)
+      dsimp only
+      refine Step2.F (s := s) ?_ f
+      exact w1.trans (Step2.ofEq rfl ⟨rfl, rfl, rfl, rfl, rfl, rfl⟩)
+    · exact ⟨f, rfl⟩
   | startDone r | finishDone r =>
     simp only [step]
     unfold complete
